@@ -100,8 +100,15 @@ func knownBoundOf(c *Compiler, v ssa.Value) uint64 {
 }
 
 //@ prop C02
-// (inserts the loads of the memory length / base or reuses an earlier value: assumed not to disturb the
-// registers of the check being built; the value it returns is recorded as THE memory length)
+// The memory length / base used by a check: either the value cached for the current linear path (the
+// reloads after calls and memory.grow keep that cache current - not under contract) or freshly loaded from
+// the memory's slot in the module context: in place for a local memory, through the pointer to the
+// exporter's memory instance for an imported one. Values recorded earlier (zero extensions, constants,
+// loads) stay recorded.
+// At call sites the two helpers are used through these assumed contracts: the returned length is recorded
+// as THE memory length, and nothing recorded earlier is disturbed - which is what the case contracts below
+// prove of the real code (`earlier-values-stay-recorded`, `no-bounds-check-involved`), stated there with
+// quantifiers that the callers' proofs do not need to carry.
 //@ func (c *Compiler) getMemoryLenValue(forceReload bool) ssa.Value
 //@   trusted
 //@   ensures verif_ghost_int("memLenVal") == int(r0)
@@ -110,10 +117,31 @@ func knownBoundOf(c *Compiler, v ssa.Value) uint64 {
 //@   trusted
 //@   modifies nothing
 
+//@ case from-the-memory-slot (c *Compiler) getMemoryLenValue(forceReload bool) ssa.Value
+//@   requires c.ssaBuilder != nil
+//@   ensures[imported-memory-length-through-the-exporters-instance] forceReload && !c.memoryShared && c.offset.LocalMemoryBegin < 0 ==> ssa.IsLoaded(r0) && ssa.LoadedAt(r0) == memoryInstanceBufSizeOffset && ssa.IsLoaded(ssa.LoadedFrom(r0)) && ssa.LoadedFrom(ssa.LoadedFrom(r0)) == c.moduleCtxPtrValue && ssa.LoadedAt(ssa.LoadedFrom(r0)) == uint64(c.offset.ImportedMemoryBegin.U32())
+//@   ensures[local-memory-length-in-place] forceReload && !c.memoryShared && c.offset.LocalMemoryBegin >= 0 ==> gg("lastOp") == int(ssa.OpcodeUload32) && gg("lastV") == int(c.moduleCtxPtrValue) && uint32(gg("lastU1")) == c.offset.LocalMemoryLen().U32() && gg("lastRet") == int(r0)
+//@   ensures[earlier-values-stay-recorded] verif_ghost_map_kept("M:uext32", "M:uext32") && verif_ghost_map_kept("M:uext32", "M:uextArg") && verif_ghost_map_kept("M:isConst", "M:isConst") && verif_ghost_map_kept("M:isConst", "M:constVal") && verif_ghost_map_kept("M:isLd", "M:isLd") && verif_ghost_map_kept("M:isLd", "M:ldPtr") && verif_ghost_map_kept("M:isLd", "M:ldOff")
+//@   ensures[no-bounds-check-involved] oobChecks() == old(oobChecks())
+//@   modifies ghost("*")
+//@   nosafety keep-pre
+
+//@ case from-the-memory-slot (c *Compiler) getMemoryBaseValue(forceReload bool) ssa.Value
+//@   requires c.ssaBuilder != nil
+//@   ensures[imported-memory-base-through-the-exporters-instance] forceReload && c.offset.LocalMemoryBegin < 0 ==> ssa.IsLoaded(r0) && ssa.LoadedAt(r0) == memoryInstanceBufOffset && ssa.IsLoaded(ssa.LoadedFrom(r0)) && ssa.LoadedFrom(ssa.LoadedFrom(r0)) == c.moduleCtxPtrValue && ssa.LoadedAt(ssa.LoadedFrom(r0)) == uint64(c.offset.ImportedMemoryBegin.U32())
+//@   ensures[local-memory-base-in-place] forceReload && c.offset.LocalMemoryBegin >= 0 ==> ssa.IsLoaded(r0) && ssa.LoadedFrom(r0) == c.moduleCtxPtrValue && ssa.LoadedAt(r0) == uint64(c.offset.LocalMemoryBase().U32())
+//@   ensures[earlier-values-stay-recorded] verif_ghost_map_kept("M:uext32", "M:uext32") && verif_ghost_map_kept("M:uext32", "M:uextArg") && verif_ghost_map_kept("M:isConst", "M:isConst") && verif_ghost_map_kept("M:isConst", "M:constVal") && verif_ghost_map_kept("M:isLd", "M:isLd") && verif_ghost_map_kept("M:isLd", "M:ldPtr") && verif_ghost_map_kept("M:isLd", "M:ldOff")
+//@   ensures[no-bounds-check-involved] oobChecks() == old(oobChecks())
+//@   modifies ghost("*")
+//@   nosafety keep-pre
+
 //@ func (c *Compiler) memOpSetup(baseAddr ssa.Value, constOffset, operationSizeInBytes uint64) (address ssa.Value)
 //@   requires c.ssaBuilder != nil && constOffset < 1<<33 && operationSizeInBytes <= 16
 //@   ensures[checked-unless-known-safe] oobChecks() == old(oobChecks()) + 1 || (oobChecks() == old(oobChecks()) && old(knownBoundOf(c, baseAddr)) >= constOffset+operationSizeInBytes)
-//@   ensures[the-check-covers-the-access] oobChecks() != old(oobChecks()) ==> gg("oobCode") == int(wazevoapi.ExitCodeMemoryOutOfBounds) && gg("oobViaExt") == 1 && gg("oobViaConst") == 1 && gg("oobArg") == int(baseAddr) && gg("oobCeil") == int(constOffset+operationSizeInBytes) && gg("oobLen") == gg("memLenVal")
+//@   ensures[the-check-exits-with-the-memory-code] oobChecks() != old(oobChecks()) ==> gg("oobCode") == int(wazevoapi.ExitCodeMemoryOutOfBounds)
+//@   ensures[the-check-adds-the-zero-extended-base] oobChecks() != old(oobChecks()) ==> gg("oobViaExt") == 1 && gg("oobArg") == int(baseAddr)
+//@   ensures[the-check-adds-offset-plus-width] oobChecks() != old(oobChecks()) ==> gg("oobViaConst") == 1 && gg("oobCeil") == int(constOffset+operationSizeInBytes)
+//@   ensures[the-check-compares-with-the-memory-length] oobChecks() != old(oobChecks()) ==> gg("oobLen") == gg("memLenVal")
 //@   nosafety keep-pre
 
 // Bulk operations (memory.init/copy/fill, table.init/copy/fill): one check  length <u offset+size  per
